@@ -24,9 +24,9 @@ type Violation struct {
 type Scenario struct {
 	Name    string
 	Horizon time.Duration
-	Run     func(w *World)              // body of the main thread
-	Check   func(w *World) []Violation  // oracle, evaluated after the execution
-	Outcome func(w *World) string       // canonical observation (distinct-outcome count, determinism check)
+	Run     func(w *World)             // body of the main thread
+	Check   func(w *World) []Violation // oracle, evaluated after the execution
+	Outcome func(w *World) string      // canonical observation (distinct-outcome count, determinism check)
 	Log     bool
 	Bounds  *Bounds // overrides the bounds of the check for this configuration
 }
@@ -46,26 +46,32 @@ type Bounds struct {
 	D     int // thread deviations from the default schedule (preemptions and switches)
 	S     int // stalls (clock chosen while a thread is enabled)
 	Total int // if > 0: D+S deviations in total
+	// SAlone: stalls only in executions without thread deviations (the union of "<=D thread deviations, no stall" and "<=S stalls alone")
+	SAlone bool
 }
 
 func (b Bounds) ok(d, s int) bool {
 	if d > b.D || s > b.S {
 		return false
 	}
+	if b.SAlone && s > 0 && d > 0 {
+		return false
+	}
 	return b.Total <= 0 || d+s <= b.Total
 }
 
+// full: no further deviation of either kind is within the bounds
 func (b Bounds) full(d, s int) bool {
-	if b.Total > 0 && d+s >= b.Total {
-		return true
-	}
-	return d >= b.D && s >= b.S
+	return !b.ok(d+1, s) && !b.ok(d, s+1)
 }
 
 func (b Bounds) String() string {
 	s := fmt.Sprintf("thread deviations<=%d, stalls<=%d", b.D, b.S)
 	if b.Total > 0 {
 		s += fmt.Sprintf(", total<=%d", b.Total)
+	}
+	if b.SAlone {
+		s += ", stalls only without thread deviations"
 	}
 	return s
 }
@@ -218,22 +224,22 @@ type Found struct {
 }
 
 type SStats struct {
-	Configs     int            `json:"configs"`
-	ConfigsRun  int            `json:"configs_run"`
-	Executions  int            `json:"executions"`
-	Transitions int64          `json:"transitions"`
-	Outcomes    map[string]int `json:"-"`
-	NOutcomes   int            `json:"distinct_outcomes"`
+	Configs     int                 `json:"configs"`
+	ConfigsRun  int                 `json:"configs_run"`
+	Executions  int                 `json:"executions"`
+	Transitions int64               `json:"transitions"`
+	Outcomes    map[string]int      `json:"-"`
+	NOutcomes   int                 `json:"distinct_outcomes"`
 	States      map[uint64]struct{} `json:"-"`
-	ByBound     map[string]int `json:"by_bound"`
-	MaxThreads  int            `json:"max_threads"`
-	MaxPoints   int            `json:"max_points"`
-	Capped      bool           `json:"capped"`
-	CapNote     string         `json:"cap_note,omitempty"`
-	DetermOK    int            `json:"determinism_checks_ok"`
-	Found       []*Found       `json:"found"`
-	Infra       []string       `json:"infra,omitempty"`
-	Samples     []any          `json:"samples"`
+	ByBound     map[string]int      `json:"by_bound"`
+	MaxThreads  int                 `json:"max_threads"`
+	MaxPoints   int                 `json:"max_points"`
+	Capped      bool                `json:"capped"`
+	CapNote     string              `json:"cap_note,omitempty"`
+	DetermOK    int                 `json:"determinism_checks_ok"`
+	Found       []*Found            `json:"found"`
+	Infra       []string            `json:"infra,omitempty"`
+	Samples     []any               `json:"samples"`
 }
 
 type Explorer struct {
